@@ -528,6 +528,10 @@ def _lean_obligations(ctx):
     return True, ""
 
 def write_evidence(ctx, rc):
+    global EVID
+    if os.path.realpath(infra.REPO) != "/repo":
+        # self-validation runs against a scratch copy (VERIF_REPO) must not overwrite the evidence of /repo itself
+        EVID = os.path.join(infra.WORK, "evidence-scratch")
     os.makedirs(EVID, exist_ok=True)
     module, thms = lean_info(ctx.pid)
     cov = dict(ctx.cov)
